@@ -1,5 +1,6 @@
 import CfrVerif.Proofs.RateSolve
 import CfrVerif.Proofs.Unbiased
+import CfrVerif.Proofs.UnbiasedExt
 import CfrVerif.Props.C05
 /-!
 # C04 — convergence of the sampled solvers: what is a theorem, and what is not
@@ -177,5 +178,20 @@ theorem chance_sampling_unbiased (g : Game ℝ) (hg : GameWF g) (hnr : NoChanceR
         (fun k => effSum (vrec (sampledCtx g strat pass k) g.root 1 1 1 {}).2.1 me I Slot.regret a)
       = effSum (vrec (fullCtx g strat pass) g.root 1 1 1 {}).2.1 me I Slot.regret a :=
   sampled_pass_unbiased g hg hnr strat pass me I a
+
+/-- **external sampling is unbiased for the updating player's regrets**: the expectation, over the
+chance draws (declared probabilities) and the draws at the other player's infosets (that player's
+current strategy) of one pass, of what the pass adds to a regret accumulator of the updating
+player equals what the unsampled traversal adds -/
+theorem external_sampling_unbiased (g : Game ℝ) (hg : GameWF g) (hnr : NoChanceRepeat [] g.root)
+    (first : Bool) (strat : Bool → Nat → List ℝ)
+    (hs : ∀ j e, (g.infos (!first))[j]? = some e →
+      (strat (!first) j).length = e.actions.length ∧ (strat (!first) j).sum = 1)
+    (I a : Nat) :
+    expectDraws g.chance 0 (fun _ => 0) (fun kc =>
+      expectDraws (oppTable g first strat) 0 (fun _ => 0) (fun kp =>
+        effSum (erec (extCtx g first strat kc kp) g.root {}).2.1 first I Slot.regret a))
+      = effSum (vrec (fullCtx g strat 0) g.root 1 1 1 {}).2.1 first I Slot.regret a :=
+  external_pass_unbiased g hg hnr first strat hs I a
 
 end Cfr
